@@ -116,6 +116,7 @@ type Machine struct {
 	SampleEvery  int // sample a cover witness on every N-th completed path (0 = never)
 	MaxSamples   int
 	Seed         int64
+	Params       map[string]int
 
 	// statistics
 	Paths      int
@@ -136,6 +137,11 @@ type Machine struct {
 	Trace      bool
 	violSeen   map[string]int
 	pathViol   bool
+	sumCache   map[string]*summary
+	inSummary  bool
+	NoSummaries    bool
+	SummariesBuilt int
+	SummaryHits    int
 }
 
 type frame struct {
@@ -534,7 +540,15 @@ func (m *Machine) call(fn *ssa.Function, args []value) value {
 	if fn.Blocks == nil {
 		panic("no body and no intrinsic for " + name)
 	}
-	m.Funcs[name] = true
+	if v, ok := m.trySummary(fn, args); ok {
+		m.Funcs[name] = true
+		return v
+	}
+	return m.callBody(fn, args)
+}
+
+func (m *Machine) callBody(fn *ssa.Function, args []value) value {
+	m.Funcs[fn.String()] = true
 	fr := &frame{fn: fn, env: make(map[ssa.Value]value)}
 	for i, p := range fn.Params {
 		fr.env[p] = args[i]
